@@ -20,11 +20,11 @@ type letter struct {
 	Name     string
 	Code     uint64
 	CodeName string
-	Kind     string // valid | empty | wrong-kind | truncated | oversize | unknown-code
-	Class    string // parameter class used in violation keys (e.g. unknown-hash, amount-0)
-	Reply    int    // -1: none ; otherwise the message code of the single reply a well-formed request is owed
-	Async    bool   // may start work on goroutines other than the peer's handler
-	Status   bool   // a well-formed status message that passes the handshake
+	Kind     string              // valid | empty | wrong-kind | truncated | oversize | unknown-code
+	Class    string              // parameter class used in violation keys (e.g. unknown-hash, amount-0)
+	Reply    int                 // -1: none ; otherwise the message code of the single reply a well-formed request is owed
+	Async    bool                // may start work on goroutines other than the peer's handler
+	Status   bool                // a well-formed status message that passes the handshake
 	AmountOf func(e *env) uint64 // requested amount (hash requests only)
 	CapClass func(e *env) string // class of the request for the key of a cap violation
 	Build    func(e *env) []byte
@@ -211,7 +211,7 @@ func amountClass(a uint64) string {
 func alphabet() []*letter {
 	var A []*letter
 	add := func(l ...*letter) { A = append(A, l...) }
-	rlpString := enc("verif")             // an RLP string where every handler expects a list
+	rlpString := enc("verif")               // an RLP string where every handler expects a list
 	rlpListOfList := enc([][]uint{{1}, {}}) // a list whose elements are lists (wrong element kind for hash lists)
 
 	// --- StatusMsg -----------------------------------------------------------------------------------------------
@@ -297,8 +297,12 @@ func alphabet() []*letter {
 	blocks("forged:h=H+1,parent=frontier", func(e *env) []byte {
 		return enc([]*nom.DetailedMomentum{dm(forgedMomentum(e, e.frontier, e.H+1, 0, false))})
 	})
-	blocks("forged:h=0,parent=frontier", func(e *env) []byte { return enc([]*nom.DetailedMomentum{dm(forgedMomentum(e, e.frontier, 0, 0, false))}) })
-	blocks("forged:h=1,parent=genesis", func(e *env) []byte { return enc([]*nom.DetailedMomentum{dm(forgedMomentum(e, e.genesis, 1, 0, false))}) })
+	blocks("forged:h=0,parent=frontier", func(e *env) []byte {
+		return enc([]*nom.DetailedMomentum{dm(forgedMomentum(e, e.frontier, 0, 0, false))})
+	})
+	blocks("forged:h=1,parent=genesis", func(e *env) []byte {
+		return enc([]*nom.DetailedMomentum{dm(forgedMomentum(e, e.genesis, 1, 0, false))})
+	})
 	blocks("own-frontier", func(e *env) []byte { return enc([]*nom.DetailedMomentum{e.n.Detailed(e.H)}) })
 	blocks("forged*129", func(e *env) []byte {
 		var l []*nom.DetailedMomentum
@@ -369,6 +373,8 @@ func alphabet() []*letter {
 	}
 
 	// --- oversize ------------------------------------------------------------------------------------------------
+	add(&letter{Name: "StatusMsg:oversize(10MiB+1)", Code: protocol.StatusMsg, CodeName: "StatusMsg", Kind: "oversize", Class: "oversize", Reply: -1, Oversize: true,
+		Build: func(*env) []byte { return nil }})
 	add(&letter{Name: "NewBlockHashesMsg:oversize(10MiB+1)", Code: protocol.NewBlockHashesMsg, CodeName: "NewBlockHashesMsg", Kind: "oversize", Class: "oversize", Reply: -1, Oversize: true, Async: true,
 		Build: func(*env) []byte { return nil }})
 
